@@ -169,7 +169,7 @@ impl Profile {
     /// Still excluded: optional fields, padding, element-size and custom fields (not supported by the backend),
     /// `_body_` parents (no fallback child by design), children without constraints (fromBytes of one alias sibling
     /// cannot be told from the other by an eagerly dispatching parent), unsized arrays/payloads that are not last
-    /// (the backends resolve that degenerate shape differently), 1-bit fields and struct inheritance (see DESIGN.md).
+    /// (the backends resolve that degenerate shape differently) and struct inheritance (see DESIGN.md).
     pub fn java_rt() -> Profile {
         Profile {
             name: "java-rt".into(),
@@ -190,6 +190,9 @@ impl Profile {
             signed_constraints: false,
             max_discr_width: 64,
             max_enum_elem_width: 64,
+            min_scalar_width: 1,
+            min_len_width: 1,
+            min_enum_width: 1,
             ..Profile::java()
         }
     }
